@@ -85,7 +85,11 @@ pub struct Frame {
     pub protocol: String,
     pub len: usize,
     pub dht: Option<DhtSummary>,
+    /// the decoded DHT envelope, when the frame carries one
+    pub msg: Option<Arc<DhtNetworkMessage>>,
     pub fate: &'static str, // delivered / dropped / delayed / no-such-peer / injected
+    /// virtual time at which the frame enters the destination's receive loop
+    pub deliver_at: Option<Duration>,
 }
 
 pub fn op_name(op: &DhtNetworkOperation) -> (&'static str, Option<[u8; 32]>) {
@@ -147,6 +151,7 @@ enum Kind {
     Puppet(mpsc::UnboundedSender<(String, Vec<u8>)>),
 }
 
+#[allow(dead_code)]
 struct Endpoint {
     tid: [u8; 32],
     addr: SocketAddr,
@@ -249,11 +254,11 @@ impl Hub {
         rx
     }
 
-    fn record(&self, g: &mut Inner, src: &str, dst: &str, bytes: &[u8], fate: &'static str) {
+    fn record(&self, g: &mut Inner, src: &str, dst: &str, bytes: &[u8], fate: &'static str, delay: Option<Duration>) {
         if !g.trace_on {
             return;
         }
-        let (protocol, dht, _) = summarize(bytes);
+        let (protocol, dht, msg) = summarize(bytes);
         let f = Frame {
             seq: self.seq.fetch_add(1, Ordering::Relaxed),
             t: self.start.elapsed(),
@@ -262,7 +267,9 @@ impl Hub {
             protocol,
             len: bytes.len(),
             dht,
+            msg: msg.map(Arc::new),
             fate,
+            deliver_at: delay.map(|d| self.start.elapsed() + d),
         };
         g.trace.push(f);
     }
@@ -273,7 +280,7 @@ impl Hub {
         let from_hex = hex::encode(from_tid);
         let target = {
             let mut g = self.inner.lock();
-            self.record(&mut g, &from_hex, to_hex, &frame, "injected");
+            self.record(&mut g, &from_hex, to_hex, &frame, "injected", Some(delay));
             g.by_tid.get(to_hex).map(|e| match &e.kind {
                 Kind::Node(t) => (Some(t.clone()), None),
                 Kind::Puppet(tx) => (None, Some(tx.clone())),
@@ -349,7 +356,7 @@ impl VerifLink for Hub {
             let mut g = self.inner.lock();
             let out_fault = g.by_tid.get(from).map(|e| e.fault.outbound.clone()).unwrap_or(DeliverFault::Deliver);
             let Some(e) = g.by_tid.get(to) else {
-                self.record(&mut g, from, to, &frame, "no-such-peer");
+                self.record(&mut g, from, to, &frame, "no-such-peer", None);
                 return Err(P2PError::Network(NetworkError::PeerNotFound(to.to_string().into())));
             };
             let in_fault = e.fault.inbound.clone();
@@ -367,10 +374,10 @@ impl VerifLink for Hub {
                 }
             }
             if dropped {
-                self.record(&mut g, from, to, &frame, "dropped");
+                self.record(&mut g, from, to, &frame, "dropped", None);
                 return Ok(());
             }
-            self.record(&mut g, from, to, &frame, if delay.is_zero() { "delivered" } else { "delayed" });
+            self.record(&mut g, from, to, &frame, if delay.is_zero() { "delivered" } else { "delayed" }, Some(delay));
             (tgt, delay)
         };
         let from_hex = from.to_string();
